@@ -2,6 +2,7 @@ import QR.Model.Compile
 import QR.Spec.Penalty
 import QR.Proofs.Except
 import QR.Proofs.SourceTie
+import QR.Proofs.Pinned
 /-
 C09 - automatic mask = first minimiser of the penalty over the eight trial symbols; explicit mask used as given.
 -/
@@ -98,5 +99,9 @@ theorem C09_source_loop (st : Nat × Nat) (i lost : Nat) :
     pickMask st i lost = (if Gen.Code.pick_update i st.1 lost then (lost, i) else st) ∧
     Gen.Code.mask_candidates = 8 ∧ Gen.Code.mask_trial_call = "self.makeImpl(True, i)" :=
   ⟨QR.SourceTie.pick_eq st i lost, QR.SourceTie.candidates⟩
+
+/-- the Python functions this property's model mirrors have, in /repo's current working tree, exactly the normalised
+    ASTs the model was written and validated against (fingerprints regenerated by T1 on every run) -/
+theorem C09_source_fingerprints : QR.Gen.fp_C09 = QR.Pinned.fp_C09 := by decide
 
 end QR.Props
